@@ -10,6 +10,8 @@ import KlogV.Model.JsonView
 import KlogV.Model.Bookmarks
 import KlogV.Model.Styler
 import KlogV.Model.Prettify
+import KlogV.Model.Warnings
+import KlogV.Model.ConfigFile
 import KlogV.Gen.Themes
 open KlogV
 
@@ -255,6 +257,27 @@ def handle (u : UTab) (args : List String) : String :=
       | .ok (rs', closed) => s!"closed={b01 closed} " ++ evalLine rs'
       | .err => "uncloseable"
       | .panic => "panic"
+  | ["warn", h, y, m, d, hh, mm, bits] =>
+    withRecords h fun rs =>
+      let bs := bits.toList.map (· == '1')
+      let dis : Disabled := ⟨bs.getD 0 false, bs.getD 1 false, bs.getD 2 false, bs.getD 3 false⟩
+      match checkWarnings ⟨dateOfArgs y m d, hh.toNat!, mm.toNat!⟩ dis rs with
+      | .ok ws => "ok " ++ commaSep (ws.map fun (dt, k) => canonDate dt ++ ":" ++ k.name)
+      | .err => "err"
+      | .panic => "panic"
+  | ["config", cpus, nc, ed, h] =>
+    let env : EnvVars := ⟨nc == "1", if ed == "~" then none else some (bytesOfHex ed)⟩
+    (match newConfig cpus.toNat! env (bytesOfHex h) with
+     | .ok c =>
+       let ob (o : Option Bool) : String := match o with | some b => b01 b | none => "~"
+       let oi {α} [ToString α] (o : Option α) : String := match o with | some x => toString x | none => "~"
+       let nw : String := match c.noWarnings with
+         | some d => b01 d.unclosed ++ b01 d.future ++ b01 d.overlapping ++ b01 d.moreThan24h
+         | none => "~"
+       s!"ok editor={match c.editor with | some e => hexOrDash (hexOfBytes e) | none => "~"} colour={c.colour.name} cpus={c.cpus} round={oi c.rounding} should={oi c.should} dashes={ob c.dateDashes} t24={ob c.time24} nowarn={nw}"
+     | .bad k => "bad " ++ k
+     | .panic => "panic")
+  | ["rounding", h] => (match parseRounding (decodeGo (bytesOfHex h)) with | some n => s!"ok {n}" | none => "err")
   | ["print", h] => withRecords h fun rs => "ok " ++ hexOrDash (hexOfChars (printRecords rs))
   | _ => "bad-op"
 
